@@ -1,7 +1,8 @@
 """C05 (fixed): the EDIF reader builds what the file says - assembly of bus cables from bit nets.
 K7: a net name containing * or ? was used as a wildcard pattern (get_cables) and captured other cables.
 K11: a second net for the bit that is the current lower index of its bus was PREPENDED as a new wire, so every
-bit of the bus moved up by one position and the cable grew (bundled float_demo.edf)."""
+bit of the bus moved up by one position and the cable grew (bundled float_demo.edf).
+K9: bit nets "\\name[i]" of a bus whose name starts with a backslash stayed separate scalar nets."""
 import os, sys, tempfile
 import spydrnet as sdn
 W = '''(edif n (edifVersion 2 0 0) (edifLevel 0) (keywordMap (keywordLevel 0)) (library work (edifLevel 0) (technology (numberDefinition))
@@ -26,6 +27,11 @@ got = rd([('x_3_', 'x[3]', [0]), ('x_1_', 'x[1]', [1]), ('x_3_', 'x[3]', [2]), (
 exp = [('x', 0, [[4], [1, 3], [], [0, 2]])]
 if got != exp:
     bad.append('K11 bits given twice, out of order: %r, expected %r' % (got, exp))
+# K9: a bus whose name starts with a backslash, bits written "\\x[i]" (no space); the escaped scalar "\\y[3] " is no bit
+got = rd([('x_0_', '\\x[0]', [0]), ('x_1_', '\\x[1]', [1]), ('y_3_', '\\y[3] ', [2])])
+exp = [('\\x', 0, [[0], [1]]), ('\\y[3] ', 0, [[2]])]
+if got != exp:
+    bad.append('K9 bus name starting with a backslash: %r, expected %r' % (got, exp))
 if bad:
     print('VIOLATION: ' + '; '.join(bad)); sys.exit(1)
 print('OK')
